@@ -47,7 +47,11 @@ TRUSTED_BASE = [
     'object, set()/Lock() = new empty/unlocked objects, `except BaseException` catches everything the callback raises, '
     'Thread.is_alive() false = ended, join() without arguments returns only after the thread ended, daemon/target keywords '
     'of ExcThread as for threading.Thread; (d) time.sleep(self._interval) and the interval value are recorded, not '
-    'interpreted (no timing in the model); `if self._done:` is interpreted with the callback given',
+    'interpreted (no timing in the model); `if self._done:` is interpreted with the callback given in C18_skelfacts_monitor_step '
+    'and with done=None in C18_skelfacts_no_callback_* (step-level for all states + "no callback is ever invoked" for all runs; '
+    'the run-level close-waits theorem is proved for the model with a callback only); (e) `dis` half: a statement '
+    '`logger.<level>(<constants>)` on a module-level `logger = getLogger(__name__)` is skipped as frame-local (any other use '
+    'of the logger fails closed)',
     'translate/taskdone_funs.py (ast -> Gen/TaskDoneFuns.v: every method of TaskDoneCallback, ThreadTaskDoneCallback, '
     'ExcThread and current_task_or_thread as a statement AST; fail-closed) and the semantics DoneCb/TaskInterp.v gives that '
     'AST (method lookup by name, frames, time.sleep as the suspension point of the close methods, asyncio '
@@ -81,6 +85,17 @@ ASSUMPTIONS = [
 ]
 
 PARK_TIMEOUT = 5.0
+# A run that ends in a park timeout / Deadlock costs 5..40 s.  On a broken ThreadDoneCallback (e.g. the scan polarity
+# flipped) nearly every run does; so a phase of the correspondence stops scheduling further runs once STALL_LIMIT of its
+# runs have stalled (STALL_AFTER once an earlier phase has already hit the limit), keeps what it has collected (the oracle
+# has judged every completed run) and goes on to the verdict.
+STALL_LIMIT = 5
+STALL_AFTER = 2
+_STALLS = {'total': 0}
+
+
+def _stall_budget() -> int:
+    return STALL_LIMIT if _STALLS['total'] < STALL_LIMIT else STALL_AFTER
 
 
 # ---------------------------------------------------------------- opcode scheduler (real code)
@@ -1024,6 +1039,28 @@ async def run_union_case(default_reg: bool, raise_who, close_first: bool, task_f
             'close': dict(result), 'close_returned_while_alive': early, 'closer_alive': hung}
 
 
+def _bounded_close(obj, bad: list, case: str, timeout: float = 5.0) -> bool:
+    """obj.close() in a helper thread: on a broken ThreadDoneCallback close() may never return (the check must not hang).
+    -> True iff close() returned; an exception of close() is re-raised here, as a direct call would."""
+    box = {}
+
+    def run():
+        try:
+            obj.close()
+        except BaseException as e:      # noqa
+            box['exc'] = e
+
+    th = threading.Thread(target=run, daemon=True, name='verif-close')
+    th.start()
+    th.join(timeout)
+    if th.is_alive():
+        bad.append(('thread:close-hangs', f'{case}: every registered thread has ended, close() did not return within {timeout}s'))
+        return False
+    if 'exc' in box:
+        raise box['exc']
+    return True
+
+
 def run_thread_api_cases() -> list:
     """the real ThreadDoneCallback through its API, no scheduler: (a) a thread registered BY ANOTHER thread (register(t)) is the
     one that is called back, with that thread object as the argument; (b) a registered thread all of whose references the
@@ -1043,7 +1080,7 @@ def run_thread_api_cases() -> list:
         bad.append(('thread:register-returns-other-object', f'register(t) returned {r!r}'))
     ev.set()
     other.join(5)
-    obj.close()
+    _bounded_close(obj, bad, 'register(other thread)')
     if got != ['verif-other']:
         bad.append(('thread:callback-for-wrong-thread', f'register(<thread verif-other>) from the main thread: callbacks invoked for {got}'))
     # (b)
@@ -1058,7 +1095,7 @@ def run_thread_api_cases() -> list:
     del th
     gc.collect()
     time.sleep(0.08)
-    obj.close()
+    _bounded_close(obj, bad, 'registered thread without other references')
     if got2 != ['verif-dropped']:
         bad.append(('thread:callback-lost-for-unreferenced-thread', f'a registered thread whose references were dropped by the caller ended; callbacks invoked for {got2}'))
     # (d) a close() that arrives while an earlier close() is still waiting (two closers; or the worker of a cancelled
@@ -1228,17 +1265,21 @@ def shrink_thread(env, raises, labels, sig):
     changed = True
     budget = 400
     t_end = time.time() + 15
-    while changed and budget > 0 and time.time() < t_end:
+    stalls, stall_max = 0, min(2, _stall_budget())
+    while changed and budget > 0 and time.time() < t_end and stalls < stall_max:
         changed = False
         for i in range(len(cur) - 1, -1, -1):
             cand = cur[:i] + cur[i + 1:]
             budget -= 1
             r = execute(env, cand, raises=raises)
+            if r['error']:
+                stalls += 1
+                _STALLS['total'] += 1
             if any(s == sig for s, _ in oracle_thread(r)):
                 cur = cand
                 changed = True
                 break
-            if budget <= 0 or time.time() > t_end:
+            if budget <= 0 or time.time() > t_end or stalls >= stall_max:
                 break
     return cur
 
@@ -1262,11 +1303,19 @@ def _thread_runs(ctx, corr, env, jobs, deadline):
     hist, sigs, lcls = {}, {}, {}
     seen = set()
     best = {}
+    stalls, stall_max = 0, _stall_budget()
     for kind, raises, sched in jobs:
         if time.time() > deadline:
             ctx.notes.append(f'thread schedules: time budget reached after {len(runs)} runs')
             break
+        if stalls >= stall_max:
+            ctx.notes.append(f'thread schedules: {stalls} runs ended in a park timeout / deadlock; no further runs of this '
+                             f'phase scheduled after {len(runs)} runs (the oracle has judged the completed ones)')
+            break
         r = execute(env, sched, raises=raises)
+        if r['error']:
+            stalls += 1
+            _STALLS['total'] += 1
         r['kind'] = kind
         runs.append(r)
         hist[kind] = hist.get(kind, 0) + 1
@@ -1283,7 +1332,7 @@ def _thread_runs(ctx, corr, env, jobs, deadline):
                 best[sig] = (r, what, sched)
     for sig, (r, what, sched) in best.items():
         small = shrink_thread(env, r['raises'], sched, sig)
-        rr = execute(env, small, raises=r['raises'])
+        rr = execute(env, small, raises=r['raises']) if small != list(sched) else r
         corr.violations.append(Violation(sig, what, {
             'half': 'thread', 'raises': r['raises'], 'schedule': small,
             'schedule_with_drain': rr['labels'], 'observed_events': rr['events'],
@@ -1331,7 +1380,11 @@ def _fine_runs(ctx, corr, env, n):
     run onto shared accesses must behave like the access-granularity run (checked through the model)."""
     rng = ctx.rng
     runs = []
+    stalls, stall_max = 0, _stall_budget()
     for _ in range(n):
+        if stalls >= stall_max:
+            ctx.notes.append(f'every-opcode mode: {stalls} runs ended in a park timeout / deadlock; stopped after {len(runs)} runs')
+            break
         raises, _ = random_schedule(rng, 2, 0)
         T, sk, cls = env
         run = Run(cls, sk, T, raises=raises, fine=True)
@@ -1362,6 +1415,9 @@ def _fine_runs(ctx, corr, env, n):
             fin_active = sorted(getattr(th, 'idx', -1) for th in list(run.obj._active))
             run.stop()
             sys.settrace(old)
+        if err:
+            stalls += 1
+            _STALLS['total'] += 1
         # projection: keep shared accesses; events of frame-local steps move to the thread's previous access
         pl, po = [], []
         last = {}
@@ -1493,7 +1549,8 @@ def search(ctx, broken) -> list:
         for _ in range(4000):
             raises, s = random_schedule(rng, rng.randint(1, 4), rng.randint(5, 80))
             yield 'random', raises, s
-    _thread_runs(ctx, corr, env, jobs(), time.time() + 240)
+    # (a phase of the correspondence that already stalled STALL_LIMIT times: at most STALL_AFTER more stalled runs here)
+    _thread_runs(ctx, corr, env, jobs(), time.time() + (240 if _STALLS['total'] < STALL_LIMIT else 45))
     loop = asyncio.new_event_loop()
     try:
         for raises, ops in task_cases(rng, 5, 3000):
